@@ -546,7 +546,7 @@ func (cr *concRun) checkStaleLoad() {
 		if l.Outcome != "val" {
 			continue
 		}
-		for _, k := range l.Keys {
+		for _, k := range sortedKeys(l.Ret) { // requested keys and keys the bulk loader volunteered
 			vL, ok := l.Ret[k]
 			if !ok {
 				continue
@@ -601,13 +601,27 @@ func (cr *concRun) checkStaleLoad() {
 				default:
 					cr.probe["write-after-load-finished"]++
 				}
+				// a key the bulk loader volunteered (it was not among the keys the call asked for) has
+				// its own rule names, so that the known finding about volunteered values (DESIGN.md
+				// section 9, known_findings.json) never hides a stale load of a requested key
+				visRule, finRule, what := "load.stale-visible", "load.stale-final", "load"
+				volunteered := true
+				for _, lk := range l.Keys {
+					if lk == k {
+						volunteered = false
+					}
+				}
+				if volunteered {
+					visRule, finRule, what = "load.stale-volunteered-visible", "load.stale-volunteered-final", "bulk load of other keys, whose loader volunteered this key"
+					cr.probe["write-during-bulk-load-that-volunteers-the-key"]++
+				}
 				for _, o := range observations[k] {
 					if o.call > h.Ret && o.v == vL {
-						cr.fail(P("C09"), "load.stale-visible", k, "key %d: load (loader entered at %d) produced %d; %s by task %d invoked at %d returned at %d; a later %s (invoked at %d) still returned the loaded value", k, l.Enter, vL, op, h.Task, h.Call, h.Ret, o.what, o.call)
+						cr.fail(P("C09"), visRule, k, "key %d: %s (loader entered at %d) produced %d; %s by task %d invoked at %d returned at %d; a later %s (invoked at %d) still returned the loaded value", k, what, l.Enter, vL, op, h.Task, h.Call, h.Ret, o.what, o.call)
 					}
 				}
 				if fv, ok := final[k]; ok && fv == vL {
-					cr.fail(P("C09"), "load.stale-final", k, "key %d: load (loader entered at %d) produced %d; %s by task %d was invoked afterwards (at %d) and returned, yet the cache finally holds the loaded value", k, l.Enter, vL, op, h.Task, h.Call)
+					cr.fail(P("C09"), finRule, k, "key %d: %s (loader entered at %d) produced %d; %s by task %d was invoked afterwards (at %d) and returned, yet the cache finally holds the loaded value", k, what, l.Enter, vL, op, h.Task, h.Call)
 				}
 			}
 		}
